@@ -67,3 +67,20 @@ def checkModes (fuel : Nat) (s : Spec) (recorded : List (Nat × Mode)) : Bool :=
   recorded.all (fun x => (annotF fuel .auto s).contains x)
 
 end Glom.Interp
+
+namespace Glom.Interp
+
+/-- top-level shape of a Fill result: a list / tuple / set spec is rebuilt as the same kind of
+    container with one item per spec item, a dict as a dict; literals are returned as they are -/
+def fillShapeOK : Spec → V → Bool
+  | .fill (.list xs), .list vs => vs.length == xs.length
+  | .fill (.tuple xs), .tuple vs => vs.length == xs.length
+  | .fill (.list _), _ => false
+  | .fill (.tuple _), _ => false
+  | .fill (.dict false _), .dict false _ => true
+  | .fill (.dict false _), _ => false
+  | .fill (.str s), .str s' => s == s'
+  | .fill (.str _), _ => false
+  | _, _ => true
+
+end Glom.Interp
